@@ -1192,16 +1192,19 @@ pub fn pair_values(f: &Field) -> Vec<Val> {
         Ty::I32 => n(&[0, 1, -1, i32::MAX as i64, i32::MIN as i64]),
         Ty::Bool | Ty::Bool32 => n(&[0, 1]),
         Ty::Char => n(&[0, b'A' as i64, 0x7f, 0xff]),
+        // every enumerant and every single flag bit: an interaction that needs ONE particular
+        // value of a discriminant-like neighbour is only met if that value is in the product
         Ty::Enum { items, .. } => {
-            let mut v = vec![items[0].1 as i64, items[items.len() - 1].1 as i64, items[items.len() / 2].1 as i64];
+            let mut v: Vec<i64> = items.iter().map(|i| i.1 as i64).collect();
+            v.sort();
             v.dedup();
             n(&v)
         },
         Ty::Flags { items, .. } => {
             let all: i64 = items.iter().fold(0, |a, b| a | (1i64 << b.1));
-            let lo = 1i64 << items[0].1;
-            let hi = 1i64 << items[items.len() - 1].1;
-            let mut v = vec![0, lo, hi, all];
+            let mut v = vec![0, all];
+            v.extend(items.iter().map(|b| 1i64 << b.1));
+            v.sort();
             v.dedup();
             n(&v)
         },
